@@ -161,11 +161,14 @@ def run(ctx):
             size = ctx.rng.randint(0, 60)
             xmin = ctx.rng.randint(1, 9)
             alpha = ctx.rng.choice([1.2, 1.5, 2.0, 2.5, 3.7])
+            if r % 5 == 2:
+                # heavy tail: legal exponents close to 1 draw astronomically large (still integer-valued, >= xmin) numbers
+                size, alpha = 1500, (1.05, 1.1, 1.15)[(r // 20) % 3]
             ev = dict(op="PowerSample", size=size, xmin=xmin, raised=False, ret=[])
             try:
                 np.random.seed(sid)
                 ret = prs.powerlaw_sample(size=size, xmin=float(xmin) if r % 8 == 2 else xmin, alpha=alpha)
-                ev["ret"] = [int(v) if (float(v) == int(v) and abs(v) < 2 ** 30) else (-1 if float(v) != int(v) else 2 ** 30) for v in np.asarray(ret).tolist()]
+                ev["ret"] = [encode_sample(v) for v in np.asarray(ret).tolist()]
             except Exception as e:      # noqa: BLE001
                 ev.update(raised=True, exc=f"{type(e).__name__}: {e}"[:160])
         else:
@@ -224,6 +227,25 @@ def run(ctx):
         raise MachineryFailure("corrupted subsample trace accepted")
     run_cfg(ctx, "NEG_repl", cfg_text(["subsample"], maxcats=2, maxcount=2, mutations=["with_replacement"], invs=("SubsampleOK", "NeverOverdraw"), emit=False),
             expect_violation=["SubsampleOK", "NeverOverdraw"], workers=4)
+
+
+def encode_sample(v):
+    """a drawn number for TLC: itself when it is a 32-bit integer value, 2^30 for larger integer values (and +inf), -1 when it is
+    not integer-valued (or NaN), -2 for integer values below -2^30"""
+    v = float(v)
+    if v != v:
+        return -1
+    if v in (float("inf"),):
+        return 2 ** 30
+    if v == float("-inf"):
+        return -2
+    if v != math.floor(v):
+        return -1
+    if v >= 2 ** 30:
+        return 2 ** 30
+    if v <= -2 ** 30:
+        return -2
+    return int(v)
 
 
 def replay(doc):
